@@ -346,3 +346,30 @@ M("C20", "cleanup-from-stale-copy", "driver/udp_socket.py",
   "                snapshot_ = list(self._receive_handlers)\n                remove_handlers = [\n                    handler\n                    for handler in self._receive_handlers\n                    if handler.should_remove_handler\n                ]\n\n            if remove_handlers:\n                _LOGGER.debug(\"Removed timedout handlers %s\", remove_handlers)\n\n            # Remove them from the collection\n            with self._lock:\n                self._receive_handlers = [\n                    handler\n                    for handler in snapshot_\n", rule="R10")
 M("C20", "cleanup-single-region-twin", "driver/udp_socket.py", "            if remove_handlers:\n                _LOGGER.debug(\"Removed timedout handlers %s\", remove_handlers)\n\n            # Remove them from the collection\n            with self._lock:\n                self._receive_handlers = [",
   "            with self._lock:\n                self._receive_handlers = [", expect="silent")
+
+# --------------------------------------------------------------------------- round 8 rules
+M("C02", "mask-ladder-stops-at-31", "driver/accessor.py", "            if self.maxitems > 32:\n                self.bitmask = 63\n            elif self.maxitems > 16:",
+  "            if self.maxitems > 16:", rule="R12")
+M("C03", "notify-also-when-unchanged", "driver/accessor.py", "        if new_value == old_value:\n            return\n", "", rule="R3")
+M("C04", "watercare-mode-or-default", "driver/protocol/watercare.py", "                        GET_WATERCARE_FORMAT,\n                        mode,\n", "                        GET_WATERCARE_FORMAT,\n                        mode or 1,\n", rule="R2")
+M("C04", "packet-payload-stripped", "driver/protocol/packet.py", "        return match.groups()", "        return tuple(p.strip() for p in match.groups())", rule="R4")
+M("C06", "timeout-restarts-on-any-datagram", "driver/udp_protocol_handler.py",
+  "            if protocol.queue.head is not None:\n                data, sender = protocol.queue.head\n                if self.can_handle(data, sender):\n                    protocol.queue.pop()\n                    await self.async_handle(data, sender)\n                    self._reset_timeout()\n                    return True\n",
+  "            if protocol.queue.head is not None:\n                data, sender = protocol.queue.head\n                self._reset_timeout()\n                if self.can_handle(data, sender):\n                    protocol.queue.pop()\n                    await self.async_handle(data, sender)\n                    return True\n", rule="R5")
+M("C07", "status-handler-accepts-stem", "driver/protocol/statusblock.py", "        return received_bytes.startswith(STATU_VERB) or received_bytes.startswith(",
+  "        return received_bytes.startswith(STATU_VERB[:4]) or received_bytes.startswith(", rule="R8")
+M("C09", "no-response-never-raised", "async_spa.py", "                        > GeckoConfig.PING_DEVICE_NOT_RESPONDING_TIMEOUT_IN_SECONDS\n                    ):\n                        await self._event_handler(\n                            GeckoSpaEvent.RUNNING_PING_NO_RESPONSE,",
+  "                        > GeckoConfig.PING_DEVICE_NOT_RESPONDING_TIMEOUT_IN_SECONDS * 1000\n                    ):\n                        await self._event_handler(\n                            GeckoSpaEvent.RUNNING_PING_NO_RESPONSE,", rule="R3")
+M("C09", "driver-locates-from-any-state", "async_spa_manager.py", "                    self.spa_state == GeckoSpaState.IDLE\n                    and self._spa_descriptors is None\n", "                    self._spa_descriptors is None\n", rule="R2")
+M("C10", "timer-task-not-cancelled", "config.py", "    await asyncio.wait([ConfigChange], timeout=delay)",
+  "    timer = asyncio.ensure_future(asyncio.sleep(delay))\n    await asyncio.wait([ConfigChange, timer], return_when=asyncio.FIRST_COMPLETED)\n    timer.cancel()", rule="R9")
+M("C10", "timer-task-cancelled-in-finally-twin", "config.py", "    await asyncio.wait([ConfigChange], timeout=delay)",
+  "    timer = asyncio.ensure_future(asyncio.sleep(delay))\n    try:\n        await asyncio.wait([ConfigChange, timer], return_when=asyncio.FIRST_COMPLETED)\n    finally:\n        timer.cancel()", expect="silent")
+M("C10", "disconnect-forgets-transport-close", "async_spa.py", "            self._transport.close()\n", "            pass\n", rule="R1")
+M("C17", "future-dropped-on-cancel", "config.py", "    await asyncio.wait([ConfigChange], timeout=delay)",
+  "    try:\n        await asyncio.wait([ConfigChange], timeout=delay)\n    except asyncio.CancelledError:\n        ConfigChange = None\n        raise", rule="R3")
+M("C19", "segment-quotes-naive-replace", "utils/snapshot.py", "        data = re.sub(\n            r\"\\\\.|'\",\n            lambda m: \"\\\\x27\" if m.group(0) == \"'\" else m.group(0),\n            groups[0],\n            flags=re.DOTALL,\n        )\n",
+  "        data = groups[0].replace(\"'\", \"\\\\x27\")\n", rule="R3")
+M("C19", "dump-row-matches-any-bracket-run", "utils/snapshot.py", "(r\"\\[('0x[0-9A-Fa-f]+'(?:, ?'0x[0-9A-Fa-f]+')*)\\]\", self._re_data)", "(r\"\\[([0-9A-Fa-fx\\\\' ,]*)\\]\", self._re_data)", rule="R3")
+M("C20", "final-connect-every-pass", "spa.py", "        if self._is_connected:\n            return\n        if self.isopen:", "        if self.isopen:", rule="R7")
+M("C16", "statu-content-from-mutable-fields", "driver/protocol/packet.py", "                self._content,\n", "                self._content if not hasattr(self, \"sequence\") or self.sequence is None or not self._content.startswith(b\"STATU\") else self._content[:5] + bytes([self.sequence & 255]) + self._content[6:],\n", rule="R6")
